@@ -26,6 +26,7 @@ BODIES = {
     # the executed code replaced / ignores the SIGINT handler: only the final os._exit rung ends it
     "sighandler": PID + "import signal, time\nsignal.signal(signal.SIGINT, lambda *a: None)\nwhile True:\n    time.sleep(0.2)\n",
     "sigign": PID + "import signal, time\nsignal.signal(signal.SIGINT, signal.SIG_IGN)\nwhile True:\n    time.sleep(0.2)\n",
+    "mto-retry": PID + "import time\ntime.sleep(30.0 + channel.receive())\n",
     "extra0": PID + "import threading\ndef spin():\n    while True:\n        pass\nthreading.Thread(target=spin, daemon=True).start()\n",
     "extra1": PID + "import time\ntime.sleep(0.4)\n",
     "transfer-in": PID + "while True:\n    channel.receive()\n",
@@ -43,7 +44,7 @@ def write_json(path, obj):
 group = execnet.Group()
 pids = {}
 if topo == "popen":
-    gw = group.makegateway("popen//id=w")
+    gw = group.makegateway("popen//execmodel=main_thread_only//id=w" if cls == "mto-retry" else "popen//id=w")
 elif topo == "via":
     master = group.makegateway("popen//id=m")
     if moment != "bootstrap":
@@ -70,6 +71,15 @@ else:
     ch = gw.remote_exec(body)
     channels.append(ch)
     pids["w"] = ch.receive()
+    if cls == "mto-retry":
+        ch.send(float(spec["delay"]))
+        # an overlapping remote_exec is refused with the deadlock text; so is its retry (nothing else may happen to it)
+        for _ in range(2):
+            c2 = gw.remote_exec("pass")
+            try:
+                c2.waitclose(5.0)
+            except Exception:
+                pass
     if cls in ("sleep-short", "sleep-long"):
         # the remaining sleep is counted from about the moment the connection ends
         ch.send(float(spec["delay"]))
